@@ -673,10 +673,46 @@ def method(fr, recv, recv_node, name, args, kw, extra, n):
     a0 = args[0] if args else None
     tag = recv[0]
 
+    def const_key(knode):
+        if isinstance(knode, ast.Constant) or (isinstance(knode, ast.Name) and T.isconst(fr.env.get(knode.id, ('?',)))):
+            return fr.ex(knode)
+        return None
+
+    def parent_of(node):
+        # d['k'] / d.get('k') / d.setdefault('k', ...) denote (an alias of) the entry k of d
+        if isinstance(node, ast.Subscript) and not isinstance(node.slice, ast.Slice):
+            return node.value, const_key(node.slice)
+        if isinstance(node, ast.Call) and isinstance(node.func, ast.Attribute) and node.func.attr in ('get', 'setdefault') and node.args and not node.keywords:
+            return node.func.value, const_key(node.args[0])
+        return None, None
+
+    def value_of(node):
+        if fr.is_place(node):
+            return fr.place_get(node)
+        par, k = parent_of(node)
+        if par is None or k is None:
+            return None
+        pv = value_of(par)
+        if pv is not None and pv[0] == 'dict':
+            return dict(pv[1]).get(k[1])
+        return None
+
+    def rebind_node(node, new):
+        if fr.is_place(node):
+            fr.place_set(node, new)
+            return True
+        par, k = parent_of(node)
+        if par is None or k is None:
+            return False
+        pv = value_of(par)
+        if pv is None or pv[0] != 'dict':
+            return False
+        d = dict(pv[1])
+        d[k[1]] = new
+        return rebind_node(par, ('dict', tuple(sorted(d.items(), key=lambda kv: repr(kv[0])))))
+
     def rebind(new):
-        if fr.is_place(recv_node):
-            fr.place_set(recv_node, new)
-        else:
+        if not rebind_node(recv_node, new):
             ctx.event('mutate', name, (recv,) + tuple(args), kw, guard=guard, loops=loops, where=where, extra={'target': ast.unparse(recv_node)})
 
     if tag == 'obj':
@@ -730,6 +766,20 @@ def method(fr, recv, recv_node, name, args, kw, extra, n):
             v = dict(recv[1]).get(a0[1])
             return default if v is None else v
         return ('dictget', recv, a0, default)
+    if name == 'setdefault' and a0 is not None and tag in ('dict', 'param', 'dictdel', 'typed', 'idx', 'gamma', 'carried', 'valat', 'lv', 'arr'):
+        default = args[1] if len(args) > 1 else NONE
+        if tag == 'dict' and T.isconst(a0):
+            d = dict(recv[1])
+            if a0[1] in d:
+                return d[a0[1]]
+            d[a0[1]] = default
+            rebind(('dict', tuple(sorted(d.items(), key=lambda kv: repr(kv[0])))))
+            ctx.event('mutate', 'setdefault', (recv, a0), guard=guard, loops=loops, where=where, extra={'target': ast.unparse(recv_node)})
+            return default
+        val = ('dictget', recv, a0, default)
+        ctx.event('mutate', 'setdefault', (recv, a0), guard=guard, loops=loops, where=where, extra={'target': ast.unparse(recv_node)})
+        rebind(SE._arr_store(recv, a0, val, guard))
+        return val
     if name == 'pop' and a0 is not None and tag in ('dict', 'param', 'dictdel', 'typed', 'idx', 'gamma', 'carried', 'valat', 'lv'):
         default = args[1] if len(args) > 1 else ('nodefault',)
         if tag == 'dict' and T.isconst(a0):
